@@ -774,7 +774,63 @@ def gen_hist_ell(ctx, rng, nprng):
             "a2": a2, "steps": steps, "slack": svals, "sform": form, "shape": "hist"}
 
 
+def gen_ell_fixed():
+    """FIXED family (own RNG string, identical in every run, worker 0 only): ellipsoid pairs with extreme
+    anisotropy — semi-axes (2^-10, 2^7), (2^-13, 2^3), (2^-7, 2^10), i.e. variance ratios 1e10..1e12 — diagonal and
+    rotated shapes, 2-D and 3-D, orthant / acute / obtuse / N≠m cones; region 2 is placed along an interior
+    direction of the cone so that the smallest facet margin is +10 × (wide semi-axis) (truly dominated) or
+    −1 × (wide semi-axis) (truly not dominated control).  The unchanged tree decides every one of these correctly
+    (checked at seeds 0–3 when the family was added; the list is deterministic, so that holds for every seed)."""
+    import random
+
+    rng = random.Random("C09-fixed-extreme-anisotropy")
+    cones = {2: ["orthant2", "acute2", "obtuse2", "threefacet2", "redundant2"],
+             3: ["orthant3", "acute3", "obtuse3", "fourfacet3", "pyramid3"]}
+    out = []
+    for narrow, wide in [(2.0 ** -10, 2.0 ** 7), (2.0 ** -13, 2.0 ** 3), (2.0 ** -7, 2.0 ** 10)]:
+        for m in (2, 3):
+            for name in cones[m]:
+                for rot in (False, True):
+                    W = np.array(INT_CONES[name], dtype=float)
+                    N = W.shape[0]
+                    ax = [wide] + [narrow] * (m - 1)
+                    rng.shuffle(ax)
+                    if m == 3 and rng.random() < 0.5:
+                        ax[ax.index(narrow)] = math.sqrt(narrow * wide)
+                    D = np.diag(np.array(ax) ** 2)
+                    if rot:
+                        c_, s_ = rng.choice([(0.6, 0.8), (0.8, 0.6), (5 / 13, 12 / 13), (0.28, 0.96)])
+                        Q = np.eye(m)
+                        i, j = rng.sample(range(m), 2)
+                        Q[i, i], Q[i, j], Q[j, i], Q[j, j] = c_, -s_, s_, c_
+                        S1 = Q @ D @ Q.T
+                        S1 = (S1 + S1.T) / 2
+                    else:
+                        S1 = D
+                    S2 = S1.copy() if rng.random() < 0.5 else np.eye(m) * narrow ** 2
+                    c1 = np.array([rng.randint(-8, 8) / 4 for _ in range(m)])
+                    svals, form = ([0.0], "0d") if rng.random() < 0.5 else \
+                        ([rng.randint(0, 8) / 8 for _ in range(N)], "vec")
+                    sfull = np.array(svals * N if len(svals) == 1 else svals)
+                    d = interior_dir(W)
+                    wd = W @ d
+                    if wd.min() <= 1e-9:
+                        continue
+                    for tag, tgt in (("dominated", 10 * wide), ("control", -wide)):
+                        marg = ell_margins(W, c1, S1, 1.0, c1, S2, 1.0, sfull)
+                        lam = max((tgt - marg[n]) / wd[n] for n in range(N))
+                        c2 = c1 + lam * d
+                        out.append({"kind": "ell", "order": {"t": "int", "name": name}, "c1": c1.tolist(),
+                                    "S1": S1.tolist(), "a1": 1.0, "c2": c2.tolist(), "S2": S2.tolist(), "a2": 1.0,
+                                    "slack": svals, "sform": form, "sigma": "rot" if rot else "diag",
+                                    "shape": "fixed-aniso-%s/%s" % (tag, "rot" if rot else "diag")})
+    return out
+
+
 def gen(ctx):
+    if ctx.worker == 0:
+        for case in gen_ell_fixed():
+            yield case
     rng, nprng = ctx.rng, ctx.nprng
     plan = [("rect_exact", ctx.n(320, 60000)), ("rect_intW", ctx.n(90, 12000)), ("rect_intB", ctx.n(90, 12000)),
             ("rect_float", ctx.n(100, 15000)), ("ell", ctx.n(170, 30000)),
